@@ -22,7 +22,7 @@ META = {
                   'the deallocator really frees; the is_list callback inspects its node and answers false for NULL); the model-vs-C tie is sampling (exhaustive over small shapes, not a proof about the C text): '
                   'visit sequences, iter.parent at each post-order visit, link/tag images after completion and in the middle of cut-short iterations, deallocator logs, ASan on individually malloc\'ed nodes. '
                   'Distinct node ids in the theorems correspond to distinct addresses of live nodes. '
-                  'NOT covered by a theorem, only by the correspondence run (sampling): (a) re-entrancy - a deallocator that itself calls bintree_free on another tree the node owns '
+                  'NOT covered by a theorem, only by the correspondence run (sampling): (0) bintree_visualize and bintree_graphviz (also into failing streams) and bintree_is_leaf are not modelled at all - they must only observe the tree, so the check compares the link image after each call with the image before it and then iterates and frees normally (the recursive bintree_traverse_* are modelled as pure functions and get the same treatment); (a) re-entrancy - a deallocator that itself calls bintree_free on another tree the node owns '
                   '(the model threads the iterator as a local value and its free is a pure function that leaves everything outside its tree untouched, so the expected log is the composition over the disjoint trees; '
                   'the harness nests the real calls two levels deep); (b) constant stack space on maximally unbalanced trees - the model has no notion of stack; left/right/zig-zag chains of 6000-20000 nodes '
                   '(thorough: 12000-100000) are iterated in all orders and freed by the real code in a thread with a 128 KiB stack, compared with the Python specification only.',
@@ -295,6 +295,15 @@ class Spec:
             seq = self.rest if self.open else []
             self.open = False
             return self.show(seq, self.post)
+        if w[0] == 'complete':
+            self.open = False
+            return 'done'
+        if w[0] == 'leaf':
+            i = int(w[1]); return f'leaf {int(self.l[i] is None and self.r[i] is None)}'
+        if w[0] in ('viz', 'dot'):
+            # what bintree_visualize / bintree_graphviz print is not part of this property (a change of the dump format is
+            # no violation): nothing is prescribed for the line itself, only that the links stay as they were (next `image`)
+            return None
         if w[0] == 'free':
             seq = self.kill(self.root); self.root = None
             return self.show(seq, False, 'freed')
@@ -308,6 +317,11 @@ class Spec:
 def spec(h):
     s = Spec()
     return [s.step(l) for l in h]
+
+
+def model_agrees(impl, model):
+    """implementation output = model output, where the model answers (`~`: a pure observer the model does not describe)"""
+    return len(impl) == len(model) and all(m == '~' or a == m for a, m in zip(impl, model))
 
 
 def matches(out, exp):
@@ -365,11 +379,15 @@ def valid(h):
     s = Spec()
     for line in h:
         w = line.split()
-        if w[0] not in ('reset', 'tree', 'lists', 'owns', 'image', 'trav', 'iter', 'resume', 'free', 'freel', 'freer'):
+        if w[0] not in ('reset', 'tree', 'lists', 'owns', 'image', 'trav', 'iter', 'resume', 'complete', 'viz', 'dot', 'leaf', 'free', 'freel', 'freer'):
+            return False
+        if w[0] == 'leaf' and not (len(w) == 2 and 0 <= int(w[1]) < s.n and not s.dead[int(w[1])]):
+            return False
+        if w[0] == 'dot' and not (len(w) >= 2 and (w[1] == 'ok' or (w[1] == 'fail' and len(w) == 3 and int(w[2]) >= 0))):
             return False
         if w[0] == 'owns' and not owns_ok(s, [int(x) for x in w[1:]]):
             return False
-        if s.open and w[0] not in ('image', 'resume'):
+        if s.open and w[0] not in ('image', 'resume', 'complete'):
             return False
         if w[0] in ('iter', 'trav') and w[1] == 'list':
             if s.root is not None and spine_kind(s, s.root) is None:
@@ -495,6 +513,23 @@ def relabel_from(tree, start):
     return walk(tree), cnt[0]
 
 
+def observer_history(rng, shape):
+    n = size(shape)
+    tree, _ = label(shape, rng.shuffle(list(range(n))) if rng.chance(1, 3) else None)
+    h = [tree_line(tree, n, pick_align(rng, n, rng.choice([None, None, 2, 'mixed']))), 'image']
+    blocks = [['viz', 'image'], ['dot ok', 'image'], ['dot fail 0', 'image'], [f'dot fail {rng.range(1, 40 + 60 * n)}', 'image'],
+              ['trav in', 'image'], ['trav pre', 'image'], ['trav post', 'image']]
+    if n:
+        blocks.append([f'leaf {rng.below(n)}', 'image'])
+        o = rng.choice(ORDERS)
+        blocks.append([f'iter {o} {rng.range(1, n)}', 'complete', 'image'])
+    for b in rng.shuffle(blocks):
+        h += b
+    o = rng.choice(ORDERS)
+    h += [f'iter {o}', 'image', 'free', 'image']
+    return h
+
+
 def nested_history(rng, shape, first_owner=None):
     """some nodes of the main tree own a secondary tree of 1…3 nodes, a node of a secondary tree may own a third one:
     the deallocator re-enters bintree_free (two levels deep)"""
@@ -591,14 +626,17 @@ def gen(ctx, rng):
                 hs.append(history(rng, s, 'aligned', a)); tags.append(f'exhaustive-align-{a}')
     # degenerate shapes
     big = [200] if quick else [150, 199, 200]
-    sizes = [1, 2, 3, 4, 5, 8, 13, 31, 64] + [rng.range(65, 120)] + ([] if quick else [127, 128])
+    sizes = [1, 2, 3, 4, 5, 8, 13, 31, 64] + [rng.range(65, 100 if quick else 120)] + ([] if quick else [127, 128])
     degenerate = []
     for n in sizes:
         degenerate += [('left-spine', left_spine(n)), ('right-spine', right_spine(n)), ('zigzag', zigzag(n, 0)), ('zagzig', zigzag(n, 1)), ('complete', complete(n))]
     for n in big:
         kinds = [('left-spine', left_spine), ('right-spine', right_spine), ('zigzag', zigzag), ('complete', complete)]
-        if quick:   # one deep 200-node shape per run (seed-chosen) + the complete tree: the post-order walk is quadratic
-            kinds = [kinds[rng.below(3)], kinds[3]]
+        if quick:   # one deep 160-node shape per run (seed-chosen) + the complete 200-node tree: the post-order walk is quadratic and the
+            # model's closure heap makes it cubic; the thorough tier runs all of them at 150/199/200, the small-stack campaign goes to 20000
+            k0, f0 = kinds[rng.below(3)]
+            degenerate += [(k0, f0(160)), (kinds[3][0], kinds[3][1](n))]
+            continue
         degenerate += [(k, f(n)) for k, f in kinds]
     for k, s in degenerate:
         hs.append(history(rng, s, 'plain', 'any')); tags.append(k)
@@ -606,6 +644,13 @@ def gen(ctx, rng):
     for _ in range(40 if quick else 400):
         n = rng.choice([rng.range(8, 20), rng.range(8, 20), rng.range(20, 60), rng.range(60, 200)])
         hs.append(history(rng, random_shape(rng, n), rng.choice(['plain', 'plain', 'exhaustive', 'free-first']), 'any')); tags.append('random')
+    # the observers of bintree.h (visualize, graphviz into a healthy stream / a stream failing at once / after k bytes,
+    # recursive traversals, is_leaf, iterate_complete): each followed by the link image, then a normal iteration and free
+    for n in range(0, (6 if quick else 8) + 1):
+        for s in shapes(n):
+            hs.append(observer_history(rng, s)); tags.append('observers')
+    for s in [left_spine(40), right_spine(40), zigzag(40), complete(63)] + [random_shape(rng, rng.range(8, 80)) for _ in range(6 if quick else 60)]:
+        hs.append(observer_history(rng, s)); tags.append('observers')
     # re-entrant deallocator: every shape up to 5 nodes with the FIRST post-order node owning a tree (the outer walk
     # has everything still to do when the nested bintree_free runs), and with random owners
     for n in range(1, 6):
@@ -637,14 +682,21 @@ def batch_text(hs):
     return ''.join('reset\n' + '\n'.join(h) + '\n--\n' for h in hs)
 
 
-def run_impl(exe, hs, timeout=90, stack=None):
+def run_impl(exe, hs, timeout=30, stack=None):
     cmd = [exe] + (['--stack', str(stack)] if stack else [])
     return [x[1:] for x in vlib.split_histories(vlib.run_exe(cmd, batch_text(hs), timeout))]
 
 
-def run_both(ctx, exe, hs, timeout=90):
-    impl = run_impl(exe, hs, timeout)
-    mo = ctx.run_model(['bintree'], batch_text(hs), 600).split('\n')
+def run_both(ctx, exe, hs, timeout=30):
+    import threading
+    box = {}
+    th = threading.Thread(target=lambda: box.update(impl=run_impl(exe, hs, timeout)))     # the C side runs while the model does
+    th.start()
+    try:
+        mo = ctx.run_model(['bintree'], batch_text(hs), 600).split('\n')
+    finally:
+        th.join()
+    impl = box['impl']
     if mo and mo[-1] == '':
         mo.pop()
     return impl, [x[1:] for x in vlib.split_histories(mo)]
@@ -798,7 +850,7 @@ def compare(ctx, exe, hs, label):
             one, onem = run_both(ctx, exe, [h], timeout=10)
             io, mo = one[0], onem[0]
         bad_spec = not matches(io, so)
-        bad_model = io != mo
+        bad_model = not model_agrees(io, mo)
         if not bad_spec and not bad_model:
             agreed += 1
             continue
@@ -926,6 +978,7 @@ def run(ctx):
     ctx.cov['rule'] = (f'every binary tree shape with 0…{ctx.cov["exhaustive_shapes_up_to_nodes"]} nodes (enumerated, {ctx.cov["exhaustive_shape_count"]} shapes), degenerate shapes (left/right spines, zig-zags, complete trees) up to 200 nodes, '
                        'seeded random shapes up to 200 nodes, left- and right-leaning list spines (0…90 list nodes, elements with and without sub-trees); per shape: recursive traversal, iterator to completion, '
                        'link image, iterator cut after k calls + image + resume, bintree_free_left/right of a random node, bintree_free with a really-freeing logging deallocator under ASan; '
+                       'the observers bintree_visualize, bintree_graphviz (healthy stream, stream failing at once, stream failing after k bytes), bintree_traverse_*, bintree_is_leaf, bintree_iterate_complete each followed by the link image; '
                        'nodes owning a secondary tree (1-3 nodes, two levels deep) that the deallocator frees with a nested bintree_free; '
                        '6000/20000-node left/right/zig-zag chains in all orders + free on a 128 KiB thread stack (C vs specification only); '
                        'node ids permuted in a third of the cases; node addresses at 0, 2, 4, 6 mod 8 (every small shape with all nodes at 2 mod 8 and with a per-node mix; shapes <= 5 nodes also all at 4 and at 6; '
